@@ -152,7 +152,7 @@ func c18Template(r *R) string {
 			sb.WriteString("{% set " + tgt + " = " + pick(r, []string{"'w'", "[1]", "n1"}) + " %}{{ m1.inner|json_encode }}{{ " + tgt + "|default('-') }};")
 		case 19:
 			// a value whose own methods would consume it if the engine called them (io.WriterTo, io.Reader)
-			sb.WriteString("{{ " + pick(r, []string{"buf", "buf", "buf|upper", "buf|trim", "buf|default('d')", "buf ~ '!'", "m1.stream"}) + " }};")
+			sb.WriteString("{{ " + pick(r, []string{"buf", "buf", "buf|upper", "buf|trim", "buf|default('d')", "buf ~ '!'", "m1.stream", "m1.blob|upper", "m1.blob|lower", "m1.blob|capitalize", "m1.blob|title", "m1.blob|reverse", "m1.blob|trim|upper", "m1.blob|replace({'b': 'B'})"}) + " }};")
 		case 20:
 			// the caller's variables cross into a sandboxed include (policy installed): among them Go callables
 			sb.WriteString("{% include 'part' " + pick(r, []string{"sandboxed", "with {'s1': 'sb'} sandboxed", "with {'m1': svc} sandboxed"}) + " %}{{ svc.name }}{{ svc.handlers.label }};")
@@ -257,7 +257,7 @@ func (propC18) Gen(seed uint64, ex map[string]bool) interface{} {
 	)
 	for k := range ctx.M {
 		if ctx.M[k].K == "m1" {
-			ctx.M[k].V.M = append(ctx.M[k].V.M, KV{"stream", &Val{T: "buffer", S: "stream"}}, KV{"blob", &Val{T: "bytes", S: "b\x00lob"}}, KV{"list", &Val{T: "list", L: []*Val{s("z"), s("y"), s("x")}}}, KV{"inner", &Val{T: "map", M: []KV{{"b", i(2)}, {"a", i(1)}}}})
+			ctx.M[k].V.M = append(ctx.M[k].V.M, KV{"stream", &Val{T: "buffer", S: "stream"}}, KV{"blob", &Val{T: "bytes", S: "b\x00loB"}}, KV{"list", &Val{T: "list", L: []*Val{s("z"), s("y"), s("x")}}}, KV{"inner", &Val{T: "map", M: []KV{{"b", i(2)}, {"a", i(1)}}}})
 		}
 	}
 	sc.Ctx = ctx
